@@ -687,6 +687,64 @@ def rref(rng, dead_share=0.1):
     return ['dead' if rng.random() < dead_share else 'live', rng.randrange(64)]
 
 
+def surviving_departures(rng, spec, history, k=3):
+    """remove_from_assoc operations (at most k) that are certain to apply after `history`: an asset leaves an association
+    instance whose side holds at least one more asset, so the instance survives the departure"""
+    try:
+        ls = Lockstep(spec)
+        ls.check_every_step = False
+        for op in history:
+            ls.apply(op)
+    except Exception:
+        return []
+    sh = ls.sh
+    cands = []
+    for si, srec in enumerate(sh.assocs):
+        for side in (srec.left, srec.right):
+            if len(side) >= 2:
+                for key in side:
+                    cands.append(['remove_from_assoc', ['live', sh.assets.index(sh.asset(key))], ['live', si]])
+    rng.shuffle(cands)
+    out, used = [], set()
+    for c in cands:
+        if c[2][1] not in used:          # one departure per instance keeps the indices valid
+            used.add(c[2][1])
+            out.append(c)
+    return out[:k]
+
+
+def shared_instance_ops(rng, spec, history):
+    """(ops, departures): new assets X1, X2 (one side) and Y (other side) linked by ONE association instance whose X side
+    may hold several assets; afterwards X1 leaves that instance, which survives because X2 stays.  ([], []) when no
+    association of the language allows two members on a side."""
+    try:
+        ls = Lockstep(spec)
+        ls.check_every_step = False
+        for op in history:
+            ls.apply(op)
+    except Exception:
+        return [], []
+    lang, sh = ls.lang, ls.sh
+    conc = set(lang.concrete())
+    options = []
+    for ai, la in enumerate(lang.assocs):
+        for side, mult in (('left', la['leftMultiplicity']), ('right', la['rightMultiplicity'])):
+            if mult['max'] is None or mult['max'] >= 2:
+                xs = [t for t in lang.descendants(la[side + 'Asset']) if t in conc]
+                ys = [t for t in lang.descendants(la[('right' if side == 'left' else 'left') + 'Asset']) if t in conc]
+                if xs and ys:
+                    options.append((ai, side, xs, ys))
+    if not options:
+        return [], []
+    ai, side, xs, ys = rng.choice(options)
+    n = len(sh.assets)
+    ops = [['add_asset', rng.choice(xs), None, None, True], ['add_asset', rng.choice(xs), None, None, True],
+           ['add_asset', rng.choice(ys), None, None, True]]
+    X, Y = [['live', n], ['live', n + 1]], [['live', n + 2]]
+    ops.append(['add_assoc', ai, X, Y] if side == 'left' else ['add_assoc', ai, Y, X])
+    return ops, [['remove_from_assoc', ['live', n + rng.randrange(2)], ['live', len(sh.assocs)]]]
+
+
 def big_link_prefix(rng, lang):
     """history prefix (for an empty model): one association instance with more than 32 (left, right) pairs and
     attempts that repeat one of its pairs / a big instance that repeats the pair of a small one.  None when the
